@@ -89,6 +89,10 @@ impl<'a> StringPackerIterator<'a> {
             curr_index: 0,
         }
     }
+
+    pub fn has_more(&self) -> bool {
+        self.curr_index < self.data.len()
+    }
 }
 
 impl<'a> Iterator for StringPackerIterator<'a> {
